@@ -13,7 +13,7 @@ MODEL of the code (Kap/Model/C18.lean, tied to /repo by the correspondence run) 
     the end of a component, below the scanner's token limit) — given the external line-protocol law `LPLaw`;
   * for batches: for EVERY list of batches, relative to the input rewritten by exactly the three recorded deviations.
 -/
-import Kap.Proofs.C18Frame
+import Kap.Proofs.C18Line
 namespace Kap.Props.C18
 open Kap.C18
 
@@ -180,6 +180,47 @@ set_option maxRecDepth 8000 in
 example : specStream false [exP1, exP2] [] (sObs (streamRoundTrip exF 1 42 false [exP1, exP2]) []) = none ∧
     ((streamRoundTrip exF 1 42 false [exP1, exP2]).items.map (·.p.time)) = [42, 47] := by
   decide
+
+/-- **The line-protocol law is a THEOREM for the model's writer and parser** on the domain `LPDomain`: non-empty
+backslash-free measurement / tag keys / tag values / field keys (any commas, spaces, `=`, quotes, unicode), the
+measurement not starting with TAB, NUL or `#`, at least one field, every field value of the four types (any string
+bytes incl. line feeds; every int64; floats whose `strconv` text satisfies `FloatLaw` and `FloatPlain`), tags and fields
+sorted by key. The whole line is split at the unescaped, unquoted separators and every component comes back. -/
+theorem lp_law_on_domain (F : FloatCodec) (mult : Int) (ps : List SPoint) (h : ∀ p ∈ ps, LPDomain F p) :
+    LPLaw F mult ps :=
+  fun p hp => parseLine_lineOf F mult p (h p hp)
+
+/-- **Stream replay is faithful — without assuming the line-protocol law**: for every list of points of the domain
+whose frames are clean, both clock modes, every clock zero. What remains external is only that the real influxdb
+parser agrees with the model's parser on these lines (exercised by the correspondence run on every case). -/
+theorem stream_replay_faithful_domain (F : FloatCodec) (zero : Int) (recTime : Bool) (ps : List SPoint)
+    (G : List (Bytes × Bool × List Bytes))
+    (hdom : ∀ p ∈ ps, LPDomain F p) (hclean : ∀ p ∈ ps, (frameOf F 1 p).clean) :
+    specStream recTime ps G (sObs (streamRoundTrip F 1 zero recTime ps) G) = none :=
+  stream_replay_faithful F zero recTime ps G (lp_law_on_domain F 1 ps hdom) hclean
+
+/-- Non-vacuity: the awkward example point is in the domain. -/
+example : LPDomain exF exP1 where
+  name_ne := by decide
+  name_bs := by decide
+  name_head := by intro c h; cases h; decide
+  tags := by decide
+  fields_ne := by decide
+  fkeys := by decide
+  vals := by
+    intro kv hkv
+    simp only [exP1, List.mem_cons, List.not_mem_nil, or_false] at hkv
+    rcases hkv with rfl | rfl | rfl | rfl
+    · refine ⟨⟨⟨49, [46, 53], by decide, by decide⟩, by decide, by decide, by decide⟩, ?_⟩
+      intro x hx
+      have hx' : x ∈ ([49, 46, 53] : Bytes) := hx
+      clear hx; revert x; decide
+    · show -(2:Int)^63 ≤ 9007199254740993 ∧ (9007199254740993 : Int) < (2:Int)^63
+      decide
+    · trivial
+    · trivial
+  tagsSorted := by decide
+  fieldsSorted := by decide
 
 /-- **shift_is_constant (stream)**: whatever was read from the recording, each delivered point is the read point with
 time `t` (recorded-time mode) or `t + (zero − first)` (otherwise), the clock is asked to wait until
